@@ -67,6 +67,17 @@ T = [
  ("a variables block whose last declaration ends with ';' followed by a comment", "C10", "variables 'x: 1; /*c*/ y: 2' after removeVariable('y') serialised 'x: 1;\\n/*c*/', which did not reparse (raise mode) or listed no variables (log mode)"),
  ("a rejected MediaList.mediaText (e.g. a comment only) no longer flags", "C11", "media.mediaText = '/*x*/' raised SyntaxErr but set wellformed False on the unchanged list: the @media rule vanished from the sheet's serialisation"),
  ("a rejected CSSStyleSheet.cssText no longer leaves the variables", "C11", "rejected sheet text starting with @variables left its variables in sheet.variables"),
+ ("a dimension whose unit contains an escaped line break", "C01", "'a{width:1\\a x}' raised IndexError in DimensionValue"),
+ ("a variables block with a comment before a variable that is declared twice", "C01", "'@variables { /*c*/ a: 1; a: 2 }' raised TypeError ('CSSComment' object is not subscriptable)"),
+ ("an identifier whose escaped value is a brace", "C01", "'@foo \\7d ;' raised IndexError when serialised (escaped '}' taken for the end of a block)"),
+ ("an @import whose href cannot be joined with the base URL", "C01", "'@import \"http://[x\";' raised ValueError (Invalid IPv6 URL) from the parse"),
+ ("numbers too large for a float or for Python's int conversion", "C01", "'a{width:999...9.5px}' (400 digits) raised OverflowError when serialised; 5000-digit integers raised ValueError when parsed"),
+ ("the css codec refuses encodings that are no text encodings", "C01", "an imported sheet starting '@charset \"rot13\"' / zlib / quopri made TypeError / zlib.error escape from the parse of the importing sheet"),
+ ("an @charset rule only accepts encodings a sheet can be serialised with", "C01", "a sheet given as text with '@charset \"rot13\"' / hex / idna / undefined / css parsed but raised LookupError / UnicodeError / ValueError when serialised"),
+ ("a value with about a thousand space or comma separated items", "C01", "'a{font-family:a a a ...}' with 1000 items raised RecursionError (one generator wrapped per item; quadratic time)"),
+ ("serialising deeply nested blocks of an unknown at-rule", "C01", "'@x {{{{...' 200 levels deep took seconds to serialise (cubic, character loop in Python)"),
+ ("input nested deeper than the interpreter's recursion limit allows", "C01", "400 nested functions in a value, 200 nested @media rules or 400 nested unknown blocks raised RecursionError from parseString"),
+ ("validating a long identifier run took exponential time", "C01", "'voice-family: aaaa...a 1' and 'font-family: eeee...e 1' with non-ASCII letters: validation regexes ambiguous, seconds at 24 characters"),
 ]
 log = subprocess.run(["git", "-C", "/repo", "log", "--format=%h\t%s", "36c1f69..HEAD"], capture_output=True, text=True).stdout.splitlines()
 subj = {l.split("\t")[1][5:]: l.split("\t")[0] for l in log if l.split("\t")[1].startswith("fix: ")}
